@@ -229,8 +229,21 @@ func c09R3(c *Ctx) {
 		"(*lang.Evaluator).evalExprList: (*lang.Evaluator).evalExpr(e, exprs[i@exprs])#0 -> &lang.Cell{}",
 		"(*lang.Evaluator).evalExpr: (*lang.Evaluator).evalExpr(e, expr.(*lang.ExprObject)#0.Items[i@expr.(*lang.ExprObject)#0.Items].Value)#0 -> &lang.Cell{Value: lang.Value{Tag: ValueUnknown}}",
 	}
-	for _, w := range wantSites {
-		c.check(found[w], "R3", "insertion-point "+strings.SplitN(w, ":", 2)[0], "", w, "expected insertion point not found: "+w+" (found: "+keysOf(found)+")")
+	// the object-literal arm may sit in a helper split off evalExpr (`evalObjectLiteral(lit)`): the same
+	// copy, spelled with the helper's parameter
+	objSite := regexp.MustCompile(`^\(\*lang\.Evaluator\)\.\w+: \(\*lang\.Evaluator\)\.evalExpr\(e, [\w.()*#]+\.Items\[i@[\w.()*#]+\.Items\]\.Value\)#0 -> &lang\.Cell\{Value: lang\.Value\{Tag: ValueUnknown\}\}$`)
+	for i, w := range wantSites {
+		ok := found[w]
+		if !ok && i == 2 {
+			ee0 := p.LangFunc("(*Evaluator).evalExpr")
+			for k := range found {
+				fnName := strings.SplitN(k, ":", 2)[0]
+				if objSite.MatchString(k) && ee0 != nil && p.inClusterOf(ee0, p.funcByShortName(fnName)) {
+					ok = true
+				}
+			}
+		}
+		c.check(ok, "R3", "insertion-point "+strings.SplitN(w, ":", 2)[0], "", w, "expected insertion point not found: "+w+" (found: "+keysOf(found)+")")
 	}
 	// evalExprList(…, copy) callers: call arguments and array literal items pass true
 	ee := p.LangFunc("(*Evaluator).evalExpr")
